@@ -403,6 +403,10 @@ func runPool(items []workItem, procs int, tier, only string, deadline time.Time,
 				}
 				cmd := exec.Command(self, args...)
 				cmd.Env = append(os.Environ(), "GOMAXPROCS=2")
+				if vsched.RaceEnabled {
+					logp := filepath.Join(os.TempDir(), fmt.Sprintf("verif-race-%d", os.Getpid()))
+					cmd.Env = append(cmd.Env, "VERIF_RACE_LOG="+logp, "GORACE=log_path="+logp+" halt_on_error=0 history_size=2")
+				}
 				stdin, _ := cmd.StdinPipe()
 				stdout, _ := cmd.StdoutPipe()
 				var stderr strings.Builder
@@ -465,6 +469,13 @@ func runPool(items []workItem, procs int, tier, only string, deadline time.Time,
 		}()
 	}
 	wg.Wait()
+	if vsched.RaceEnabled {
+		if logs, _ := filepath.Glob(filepath.Join(os.TempDir(), fmt.Sprintf("verif-race-%d.*", os.Getpid()))); logs != nil {
+			for _, l := range logs {
+				os.Remove(l)
+			}
+		}
+	}
 	return stats
 }
 
